@@ -268,6 +268,7 @@ fn attempt(rng: &mut Rng, theme: usize) -> Option<Model> {
                     put(&mut m, s, k, c);
                 }
             }
+            add_rights(&mut m, rng);
             if rng.chance(1, 2) {
                 let save = m.clone();
                 if !add_ep(&mut m, rng) || m.count_side(0) > 16 || m.count_side(1) > 16 || m.count(PAWN, 0) > 8 || m.count(PAWN, 1) > 8 {
